@@ -6,6 +6,7 @@ import (
 	"regexp"
 	"sort"
 	"strings"
+	"sync"
 	"time"
 )
 
@@ -68,7 +69,7 @@ func selfTest(e *RunEnv, needPlain bool) int {
 		if s1[i].Key() != s2[i].Key() {
 			harnessFatal("nondeterminism: state after step %d (%s) differs between two identical runs", i, trace[i])
 		}
-		if r1[i] != nil && (r1[i].Exit != r2[i].Exit || r1[i].Stdout != r2[i].Stdout || r1[i].Stderr != r2[i].Stderr) {
+		if r1[i] != nil && (r1[i].Exit != r2[i].Exit || r1[i].Stdout != r2[i].Stdout || cutPanic(r1[i].Stderr) != cutPanic(r2[i].Stderr)) {
 			harnessFatal("nondeterminism: output of step %d (%s) differs between two identical runs", i, trace[i])
 		}
 	}
@@ -83,7 +84,7 @@ func selfTest(e *RunEnv, needPlain bool) int {
 				continue
 			}
 			n++
-			if r1[i].Exit != r3[i].Exit || maskOutput(r1[i].Stdout) != maskOutput(r3[i].Stdout) || maskOutput(r1[i].Stderr) != maskOutput(r3[i].Stderr) {
+			if r1[i].Exit != r3[i].Exit || maskOutput(r1[i].Stdout) != maskOutput(r3[i].Stdout) || maskOutput(cutPanic(r1[i].Stderr)) != maskOutput(cutPanic(r3[i].Stderr)) {
 				harnessFatal("seam build differs from plain build at step %d (%s): exit %d vs %d\n--- seam\n%s%s\n--- plain\n%s%s", i, trace[i], r1[i].Exit, r3[i].Exit, r1[i].Stdout, r1[i].Stderr, r3[i].Stdout, r3[i].Stderr)
 			}
 			a, b := s1[i].Abs(), s3[i].Abs()
@@ -94,6 +95,16 @@ func selfTest(e *RunEnv, needPlain bool) int {
 		}
 	}
 	return n
+}
+
+// cutPanic drops the goroutine dump of a Go panic (it holds addresses that differ from run to run).
+func cutPanic(s string) string {
+	if i := strings.Index(s, "panic:"); i >= 0 {
+		if j := strings.Index(s[i:], "\n"); j >= 0 {
+			return s[:i+j]
+		}
+	}
+	return s
 }
 
 func sortedW(w map[string][]byte) []string {
@@ -193,6 +204,7 @@ func runSpecWith(e *RunEnv, spec *Spec, before func(x *Explorer), extraCov func(
 // rejudge re-executes the full trace of v from the empty state and applies the
 // spec's oracles to the last step.
 func rejudge(e *RunEnv, spec *Spec, v *Violation) []Violation {
+	followSeen = sync.Map{} // a replay judges every follow-up again
 	x := NewExplorer(spec, e.B.GoitV, filepath.Join(e.B.Scratch, fmt.Sprintf("rj%d", time.Now().UnixNano())), 1, time.Now().Add(5*time.Minute))
 	c := x.ctxs[0]
 	cur := &Node{State: NewState()}
